@@ -338,9 +338,19 @@ def r5_beta_domain(ctx):
     # the clipped values (and nothing else) are the means used for the shape parameters
     from ..astq import Canon, unify
     L = Canon(f.node).lines(True, True)
-    SH = "?mu * (?mu * (1 - ?mu) / ?{v} - 1)"
-    ok = unify(L, ["?df = pd.concat([pd.DataFrame($0.model.estimate(...)[?i].clip(...), ...columns=[?c + '_no_noise' for ?c in $0.features]) for ?i in $0.model.estimate(...).keys()])",
-                   "?mu = ?df[?ft + '_no_noise']", f"?df.loc[:, ?ft] = beta.rvs({SH}, (1 - ?mu) * (?mu * (1 - ?mu) / ?{{v}} - 1))"]) is not None
+    import re as _re
+    SH = "?{mu} * (?{mu} * (1 - ?{mu}) / ?{v} - 1)"
+    b_ = unify(L, ["?df = pd.concat([pd.DataFrame($0.model.estimate(...)[?i].clip(...), ...columns=[?c + '_no_noise' for ?c in $0.features]) for ?i in $0.model.estimate(...).keys()])",
+                   f"?df.loc[:, ?ft] = beta.rvs({SH}, (1 - ?{{mu}}) * (?{{mu}} * (1 - ?{{mu}}) / ?{{v}} - 1))"])
+    ok = False
+    if b_ is not None:
+        mu = b_["mu"]
+        src_ = f"{b_['df']}[{b_['ft']} + '_no_noise']"
+        if _re.fullmatch(r"%\d+", mu):
+            defs_ = [ln for ln in L if ln.startswith(mu + " = ")]
+            ok = bool(defs_) and all(ln == f"{mu} = {src_}" for ln in defs_)
+        else:
+            ok = mu == src_
     ctx.check(ok, "C18.R5", f, f.node, "shape parameters derive from the clipped means", "the Beta shape parameters no longer derive from the clipped noiseless values", construct="means feed the shape parameters")
 
 
